@@ -620,6 +620,10 @@ def cases(tier):
                H2("nt", ("float", "int", "float", "int"), 4), H2("ordered", ("int", "slice"), 2), H2("anti", ("slice", "int"), 2, dt_user="sym"),
                H2("nt", ("list2", "list2", "list2"), 2, "desc_last_filtered"), H2("nt", ("list2", "list2", "list2"), 2, "desc_last_unfiltered"),
                H2("ordered", ("int", "slice"), 2, "desc_last_filtered"), H2("ordered", ("int", "slice"), 2, "desc_last_unfiltered")]
+        cs += [H2("ordered", ("list3", "list3"), 3), H2("nt", ("list2", "list2", "list2"), 3), H2("ordered", ("slice", "int"), 3),
+               H2("ordered", ("list2", "list3"), 3, "desc_last_filtered"), H2("ordered", ("list2", "list3"), 3, "desc_last_unfiltered"),
+               H2("anti", ("list3", "list2"), 3, "desc_last_filtered", dt_user="sym"), H2("anti", ("list3", "list2"), 3, "desc_last_unfiltered", dt_user="sym")]
+        cs += [H4("nt", ("left", "right", "left"), ("all", "all", "all"), 3), H4("nt", ("left", "right", "right", "left"), ("all", "int", "all", "all"), 2, bond=1)]
         cs += [H4("ordered", ("left", "left"), ("all", "all"), 3), H4("anti", ("right", "left"), ("all", "all"), 3),
                H4("nt", ("left", "right", "left"), ("all", "all", "all"), 2), H4("nt", ("right", "left", "right"), ("int", "rev", "all"), 3, bond=1),
                H4("nt", ("left", "left", "left"), ("all", "all", "all"), 3, rank=3)]
